@@ -61,7 +61,27 @@ def coq_files():
     return sorted(fs)
 
 
+class _Lock:
+    """Serialises builds in the shared coq/ and ocaml/ directories across concurrent checks."""
+    def __init__(self, name):
+        os.makedirs(os.path.join(ROOT, "work"), exist_ok=True)
+        self.path = os.path.join(ROOT, "work", f".{name}.lock")
+    def __enter__(self):
+        import fcntl
+        self.f = open(self.path, "w")
+        fcntl.flock(self.f, fcntl.LOCK_EX)
+    def __exit__(self, *a):
+        import fcntl
+        fcntl.flock(self.f, fcntl.LOCK_UN)
+        self.f.close()
+
+
 def coq_make(targets=None, jobs=16, timeout=3000):
+    with _Lock("coq"):
+        return _coq_make(targets, jobs, timeout)
+
+
+def _coq_make(targets=None, jobs=16, timeout=3000):
     """Full .vo build through coq_makefile (never -vos/-vok)."""
     os.makedirs(os.path.join(ROOT, "ocaml", "gen"), exist_ok=True)
     proj = "-Q . Pygls\n" + "\n".join(coq_files()) + "\n"
@@ -73,13 +93,18 @@ def coq_make(targets=None, jobs=16, timeout=3000):
             return False, r.stdout + r.stderr
     tgt = " ".join(targets) if targets else ""
     r = sh(f"timeout {timeout} make -f Makefile.coq -j{jobs} {tgt}", cwd=COQ, timeout=timeout + 60)
+    if r.returncode != 0 and targets:
+        # a stale dependency file can make a fresh target unknown: regenerate once
+        sh("rm -f .Makefile.coq.d", cwd=COQ)
+        r = sh(f"timeout {timeout} make -f Makefile.coq -j{jobs} {tgt}", cwd=COQ, timeout=timeout + 60)
     return r.returncode == 0, (r.stdout + r.stderr)[-6000:]
 
 
 def build_driver(prop):
     sys.path.insert(0, os.path.join(ROOT, "harness"))
     import build_driver as bd
-    return bd.build(prop)
+    with _Lock("ocaml_" + prop.lower()):
+        return bd.build(prop)
 
 
 def run_driver(prop, lines, timeout=3600):
